@@ -34,6 +34,14 @@ def gen_expr(rng, depth):
             return ("len",)
         inner = rng.choice([("num", rng.choice([1, 2, 5])), ("col", "size"), ("len",)])
         return ("neg", inner)
+    if rng.random() < 0.12:
+        # a scalar function call as an operand; its arguments are expressions themselves
+        f = rng.choice(["abs", "least", "greatest", "power"])
+        if f == "abs":
+            return ("fn", f, [gen_expr(rng, depth - 1)])
+        if f == "power":
+            return ("fn", f, [rng.choice([("col", "hardlinks"), ("len",), ("num", rng.choice([2, 3, 10]))]), ("num", rng.choice([0, 1, 2, 3]))])
+        return ("fn", f, [gen_expr(rng, depth - 1), rng.choice([("num", rng.choice([0, 5, 1000])), ("col", "hardlinks")])])
     op = rng.choice(["+", "-", "*", "/", "%", "+", "-", "*"])
     return ("bin", op, gen_expr(rng, depth - 1), gen_expr(rng, depth - 1))
 
@@ -50,6 +58,8 @@ def render(e, rng, lvl=0):
         return rng.choice(["length(name)", "len(name)", "LENGTH(name)", "length{name}"])
     if k == "neg":
         return "-" + render(e[1], rng, 2)
+    if k == "fn":
+        return "%s(%s)" % (e[1] if rng.random() < 0.8 else e[1].upper(), ", ".join(render(a, rng, 0) for a in e[2]))
     _, op, l, r = e
     p = PREC[op]
     sym = rng.choice(OPS[op]) if rng.random() < 0.25 else op
@@ -61,6 +71,9 @@ def render(e, rng, lvl=0):
 
 
 def has_mod(e):
+    """the expression uses something model.Eval does not evaluate (f64 %, a scalar function other than LENGTH)"""
+    if e[0] == "fn":
+        return True
     return e[0] == "bin" and (e[1] == "%" or has_mod(e[2]) or has_mod(e[3])) or (e[0] == "neg" and has_mod(e[1]))
 
 
@@ -106,6 +119,22 @@ def to_float_value(e, ent):
     if k == "len":
         v = len(ent["name"])
         return str(v), float(v)
+    if k == "fn":
+        # every argument is evaluated, printed, and read back as f64 by the function
+        args = [to_float_value(a, ent)[1] for a in e[2]]
+        if e[1] == "abs":
+            v = abs(args[0])
+        elif e[1] in ("least", "greatest"):
+            # f64::min / f64::max: a NaN operand is ignored
+            v = args[0]
+            for a_ in args[1:]:
+                if math.isnan(v):
+                    v = a_
+                elif not math.isnan(a_):
+                    v = min(v, a_) if e[1] == "least" else max(v, a_)
+        else:
+            v = math.pow(args[0], args[1])
+        return fmt_float(v), v
     if k == "neg":
         t, f = to_float_value(e[1], ent)
         if e[1][0] == "num":
@@ -166,6 +195,12 @@ def run(ctx):
                 exprs[1] = ("bin", rng.choice([o for o in "+-*/" if o != a[1]]), a[2], a[3])
                 if k >= 3 and a[2][0] == "bin":
                     exprs[2] = ("bin", a[2][1], a[2][2], ("bin", a[1], a[2][3], a[3]))
+        if rng.random() < 0.25:
+            # two columns that differ only in a LATER argument of a function call
+            base_ = rng.choice([("col", "size"), ("len",), gen_expr(rng, 1)])
+            a1, a2 = rng.sample([0, 1, 5, 7, 1000], 2)
+            fn_ = rng.choice(["least", "greatest"])
+            exprs += [("fn", fn_, [base_, ("num", a1)]), ("fn", fn_, [base_, ("num", a2)])]
         if rng.random() < 0.3:
             # a quoted literal as a column of its own, spelling the cache key of a neighbour (a column's Display name, an expression's Display text)
             exprs.insert(rng.randrange(len(exprs) + 1), ("str", rng.choice(["Size", "Name", "Hardlinks", "size", "(Size + 1)", "Length(Name)", "-Size", "abc", "7", "(Size - (4 - 1))"])))
